@@ -219,6 +219,8 @@ type Entry struct {
 	Deconstruct func(rows any) []parquet.Row
 	// Reconstruct rebuilds a T from a row through Schema.Reconstruct and returns its tree.
 	Reconstruct func(row parquet.Row) (ref.V, error)
+	// OpenBufferReader fills a GenericBuffer[T] / RowBuffer[T] and reads it back through GenericReader[T].
+	OpenBufferReader func(kind string, rows any) (*Reader, error)
 	// ReadAll reads the file through GenericReader[T].Read with the batch size.
 	ReadAll func(data []byte, batch int) (any, error)
 	// ReuseWrite writes a prior file on a GenericWriter[T] (closed, abandoned
@@ -512,6 +514,42 @@ func register[T any](name string) {
 			NumRows: r.NumRows(),
 		}, nil
 	}
+	e.OpenBufferReader = func(kind string, rows any) (*Reader, error) {
+		rs := rows.([]T)
+		var rg parquet.RowGroup
+		var reset func()
+		var write func([]T) (int, error)
+		switch kind {
+		case "RowBuffer":
+			b := parquet.NewRowBuffer[T]()
+			rg, reset, write = b, b.Reset, b.Write
+		default:
+			b := parquet.NewGenericBuffer[T]()
+			rg, reset, write = b, b.Reset, b.Write
+		}
+		if _, err := write(rs); err != nil {
+			return nil, &WriteError{err}
+		}
+		r := parquet.NewGenericRowGroupReader[T](rg)
+		out := &Reader{NumRows: int64(len(rs))}
+		out.Read = func(n int) (any, error) {
+			buf := make([]T, n)
+			k, err := r.Read(buf)
+			return buf[:k], err
+		}
+		out.Seek = func(i int64) error { return r.SeekToRow(i) }
+		out.Close = func() error { return r.Close() }
+		out.Rewrite = func(rows any) error {
+			r.Close()
+			reset()
+			if _, err := write(rows.([]T)); err != nil {
+				return &WriteError{err}
+			}
+			r = parquet.NewGenericRowGroupReader[T](rg)
+			return nil
+		}
+		return out, nil
+	}
 	e.ReadFunc = func(data []byte) (any, error) {
 		rows, err := parquet.Read[T](bytes.NewReader(data), int64(len(data)))
 		return rows, err
@@ -566,6 +604,9 @@ func (f *FailingWriter) Write(p []byte) (int, error) {
 
 // Reader is a type-erased GenericReader[T].
 type Reader struct {
+	// Rewrite (buffer-backed readers only) resets the buffer the rows were
+	// read from, writes other rows into it and starts reading it again.
+	Rewrite func(rows any) error
 	Read    func(n int) (any, error)
 	Seek    func(int64) error
 	Close   func() error
